@@ -9,6 +9,7 @@ from __future__ import annotations
 import numpy as np
 
 from .. import games, pm, seams, simpool
+from .. import prelude
 from ..core import Sim
 
 LEVEL = "exploration"
@@ -140,6 +141,7 @@ def run(sim: Sim) -> None:
             E, A = evaluate(solver.next_step, factory, reps, limit, gap, processes, pm.record_reset)
         return np.array(E), np.array(A), list(pm.CHANNEL)
 
+    prelude.warm_process(sim)
     sim.op("evaluate", 1)
     with sim.guard("C12.evaluate_raised"):
         E1, A1, ch1 = one_eval(1, "fork")
